@@ -13,6 +13,7 @@ import PgProofs.EvoAlign
 import PgProofs.EvoAlignU
 import PgProofs.EvoPure
 import PgProofs.EvoPermP
+import PgProofs.EvoOrderPerm
 import PgProofs.EvoNumP
 import PgProofs.EvoPropP
 import Mathlib.Tactic.NormNum
@@ -195,6 +196,31 @@ theorem C14_primitive_recOrder (g : GSpec) : ClosedAligned g (recOrder g) := by
   rcases recOrder_spec g pop st out st' h with ⟨rfl, _⟩ | ⟨_, hall⟩
   · exact hp
   · exact fun y hy => ⟨(hall y hy).1, (hall y hy).2.1⟩
+
+/-- every permutation recombinator (any `permutate` method that only reads the oracle): parents or
+children that went through `from_dict`. Instances: Order, PartiallyMapped, Cycle. -/
+theorem C14_primitive_recPerm (permute : List Nat → List Nat → M (List Nat × List Nat))
+    (hp : ∀ vx vy, OO (permute vx vy)) (g : GSpec) : ClosedAligned g (recPerm permute g) := by
+  intro pop st out st' hpop h
+  rcases recPerm_spec permute hp g pop st out st' h with ⟨rfl, _⟩ | ⟨_, hall⟩
+  · exact hpop
+  · exact fun y hy => ⟨(hall y hy).1, (hall y hy).2.1⟩
+
+theorem C14_primitive_recPMX (g : GSpec) : ClosedAligned g (recPMX g) :=
+  C14_primitive_recPerm permutePMX OO_permutePMX g
+
+theorem C14_primitive_recCycle (g : GSpec) : ClosedAligned g (recCycle g) :=
+  C14_primitive_recPerm permuteCycle OO_permuteCycle g
+
+/-- Order crossover proper: for two arrangements of the same distinct items and any cut points
+`start ≤ stop ≤ size` (any random draw), both children are arrangements of those items — `from_dict`
+has nothing to reject and the sub-choice lookup cannot miss. -/
+theorem C14_order_children_are_permutations (vx vy : List Nat) (hn : vx.Nodup) (hp : vy.Perm vx)
+    (start stop : Nat) (h1 : start ≤ stop) (h2 : stop ≤ vx.length) :
+    (orderChild vx vy start stop).Perm vx ∧ (orderChild vy vx start stop).Perm vx := by
+  refine ⟨orderChild_perm vx vy hn hp start stop h1 h2, ?_⟩
+  have := orderChild_perm vy vx (hp.nodup_iff.mpr hn) hp.symm start stop h1 (by rw [hp.length_eq]; exact h2)
+  exact this.trans hp
 
 /-! ## Numeric recombinators `Average` / `WeightedAverage` (exact rationals) -/
 
@@ -381,6 +407,13 @@ theorem C14_pure_recSegmented (g : GSpec) (cuts : List Nat) : Pure g (recSegment
 theorem C14_pure_recOrder (g : GSpec) : Pure g (recOrder g) := by
   intro pop st out st' hv hr
   rcases recOrder_spec g pop st out st' hr with ⟨rfl, rfl⟩ | ⟨hle, hall⟩
+  · exact ⟨Nat.le_refl _, fun y hy => ⟨hv y hy, Or.inl hy⟩⟩
+  · exact ⟨hle, fun y hy => ⟨(hall y hy).1, Or.inr (hall y hy).2.2⟩⟩
+
+theorem C14_pure_recPerm (permute : List Nat → List Nat → M (List Nat × List Nat))
+    (hp : ∀ vx vy, OO (permute vx vy)) (g : GSpec) : Pure g (recPerm permute g) := by
+  intro pop st out st' hv hr
+  rcases recPerm_spec permute hp g pop st out st' hr with ⟨rfl, rfl⟩ | ⟨hle, hall⟩
   · exact ⟨Nat.le_refl _, fun y hy => ⟨hv y hy, Or.inl hy⟩⟩
   · exact ⟨hle, fun y hy => ⟨(hall y hy).1, Or.inr (hall y hy).2.2⟩⟩
 
